@@ -25,12 +25,14 @@ what={
 "interface.extra-params":"f(x I, n uint64) called with a struct: the conversion definition is named after the LAST parameter's type (S__to__uint64, struct.mk uint64 [...]) while the call site uses S__to__I, which is never defined (the authors list this shape as failing in semantics/interfaces_failing.go)",
 "interface.second-param":"f(n uint64, x I) called as f(2, S{...}): the conversion is applied to the FIRST argument (uint64__to__I #2), the struct is passed bare",
 "interface.pointer-impl":"an interface implemented with pointer receivers: f(p) emits S__to__I \"p\" but no definition of S__to__I (the scan only recognises struct-typed arguments)",
+"map.commaok-assign":"v, ok = m[k] as an ASSIGNMENT to existing variables (the := form is fine) is emitted as stores of Fst/Snd of something that is not the pair MapGet returns: stuck",
 "variadic":"a variadic function is called with its arguments passed positionally instead of as a slice (stuck)",
 }
 src=open('/verif/harness/goosegen/catalogue.go').read()
 items=dict((m.group(1),(m.group(2),m.group(3),m.group(4))) for m in re.finditer(r'\{"([^"]+)", ((?:"(?:[^"\\]|\\.)*"|`[^`]*`)), ((?:"(?:[^"\\]|\\.)*"|`[^`]*`)), "([^"]*)"\}',src))
 p='/verif/known_findings.json'; k=json.load(open(p))
-k=[e for e in k if not (e['property']=='C02' and e['key'].startswith('c02.'))]
+managed={"c02."+key for key in what}
+k=[e for e in k if not (e['property']=='C02' and e.get('status')=='known' and e['key'] in managed)]
 for key,w in sorted(what.items()):
     d=f"/verif/findings/C02/{key}"; os.makedirs(d,exist_ok=True)
     if key in items:
